@@ -273,7 +273,9 @@ PROP = {
     "id": "C04",
     "prop_file": "theories/Props/C04.v",
     "proof_files": ["theories/Proofs/FullProofs.v", "theories/Proofs/CallProofs.v", "theories/Proofs/ExecProofs.v",
-                    "theories/Proofs/IndexProofs.v", "theories/Proofs/ValueProofs.v", "theories/Proofs/ScalarProofs.v"],
+                    "theories/Proofs/IndexProofs.v", "theories/Proofs/ValueProofs.v", "theories/Proofs/ScalarProofs.v",
+                    "theories/Proofs/ParserClosed.v", "theories/Proofs/ParserProofs.v", "theories/Proofs/LexFacts.v",
+                    "theories/Proofs/TypingProofs.v"],
     "gen": gen,
     "normalize": norm,
     "nontrivial": nontrivial,
